@@ -38,6 +38,11 @@ def programs(spec, mode):
                     continue
                 combos.append((kind, t))
         random.Random(seed).shuffle(combos)
+        if spec["start"] == 0 and not spec.get("surrounds"):
+            # first of all: programs that enter one manager object twice in a frame
+            for kind in kinds:
+                for shape, src in proggen.reentrant_programs(kind, mode):
+                    yield ("reentrant", kind, shape), src, kind
         for kind, t in combos[spec["start"]: spec["start"] + spec["count"]]:
             src = proggen.template(*t, kind=kind, mode=mode)
             if src is None:
